@@ -305,11 +305,12 @@ def name_result(sig_toks, retname):
             # skip generics
             d = 0
             while k < n:
-                if sig_toks[k].text == "<":
-                    d += 1
-                elif sig_toks[k].text == ">":
-                    d -= 1
-                    if d == 0:
+                tx = sig_toks[k].text
+                if sig_toks[k].kind == "punct" and tx in ("<", "<<"):
+                    d += len(tx)
+                elif sig_toks[k].kind == "punct" and tx in (">", ">>"):
+                    d -= len(tx)
+                    if d <= 0:
                         break
                 k += 1
         k += 1
